@@ -10,7 +10,7 @@ RULE = ('cases = pair models (1..3 potentials x labels) x grids with nr a multip
         '{DL_POLY, DLPOLY}, a (cutoff, nr) lattice sweep, and every nr in 3..41 not divisible by 4 (x routes) for the rejection '
         'rule; every case executed; evaluations = table values compared; non-trivial = every accepted table '
         '(curved, pairwise distinct potentials, >= 8 grid points) and every rejection case')
-RULE += "; the same pair space as C01 (objects, numpy / abs() callables, long labels, pre-filled / symlinked OUTPUT_FILE, failed predecessor) plus SI-unit potentials with the caller's derivative step h, magnitudes below 1e-99, and the rejection rule for an empty potential list; row counts that are not stated but derived (the default 1001, cutoff / dr) are rejected alike; 15 pairs of two-letter labels"
+RULE += "; the same pair space as C01 (objects, numpy / abs() callables, long labels, pre-filled / symlinked OUTPUT_FILE, failed predecessor) plus SI-unit potentials with the caller's derivative step h, magnitudes below 1e-99, and the rejection rule for an empty potential list; row counts that are not stated but derived (the default 1001, cutoff / dr) are rejected alike; 15 pairs of two-letter labels; cutoff + dr with a cutoff that is not a whole multiple of the step (derived row count divisible by four); Potential(.., h=) with h from 1e-3 to 0.1 on grids finer than h/2 (quadratic, exact central difference)"
 ASSUMPTIONS = [
     'reference closed forms are the documented formulas (see C01)',
     'DL_POLY TABLE layout as encoded in mc/readers/pair.py: title (80 blanks), (2e15.8,i10), per potential (2a8) then ngrid/4 + ngrid/4 records (4e15.8)',
@@ -44,6 +44,21 @@ def cases(tier):
         for lines in (['cutoff : 6.5'], [], ['cutoff : 1.0', 'dr : 0.1'], ['cutoff : 2.5', 'dr : 0.25'], ['dr : 0.01']):
             for route in ('cfg', 'potable'):
                 out.append(dict(route=route, cutoff=0.0, nr=0, pots=[['A', 'B', 'buck']], spelling=sp, reject=True, tab_lines=lines))
+    # cutoff + dr where the cutoff is NOT a whole multiple of the step and the derived row count is divisible by four: the table still ends at the
+    # cutoff that was written in the file (cutpot = cutoff, delpot = cutoff / (ngrid - 4))
+    from decimal import Decimal
+    for cut in ('10.035', '6.5', '2.0', '7.77', '1.0', '12.3456'):
+        for dr in ('0.01', '0.0129', '0.013', '0.0071', '0.05', '0.3', '0.0333', '0.21'):
+            q = Decimal(cut) / Decimal(dr)
+            if q != int(q) and (int(q) + 1) % 4 == 0 and int(q) + 1 >= 8:      # (a 4-row TABLE has no grid: refused)
+                for sp in ('DL_POLY', 'DLPOLY'):
+                    out.append(dict(derived=True, cutoff=float(cut), cut=cut, dr=dr, nr=int(q) + 1, pots=[['A', 'B', 'buck']], spelling=sp, route='cfg'))
+    # the caller's derivative step h (Potential(..., h=...)) is used as a CENTRAL difference at every row, also where r < h/2:
+    # for a quadratic the central difference is exact whatever h is
+    for route in ('cls', 'wp'):
+        for h in (0.1, 0.02, 1e-3):
+            for cutoff, nr in ((10.0, 1004), (1.0, 104), (2.0, 44)):
+                out.append(dict(hstep=h, route=route, cutoff=cutoff, nr=nr))
     # the rule does not depend on what is tabulated: an empty potential list
     for n in (5, 6, 7, 9, 10, 11):
         for route in ('cls', 'wp'):
@@ -169,9 +184,56 @@ def run_nan(case):
     return dict(outcome='ok:nan', nontrivial=True, evals=2 * nr, violations=viol)
 
 
+def run_derived(case):
+    ini = M.pair_ini(case['spelling'], [(a, b, M.lib_by_name(n)[0]) for a, b, n in case['pots']], case['cutoff'], case['nr'])
+    assert ini.count('nr : %d\n' % case['nr']) == 1 and ini.count('cutoff : ') == 1
+    ini = ini.replace('nr : %d\n' % case['nr'], 'dr : %s\n' % case['dr'])
+    import re
+    ini = re.sub(r'cutoff : \S+', 'cutoff : ' + case['cut'], ini)
+    text = R.write_tabulation(R.config_read(ini))
+    try:
+        t = RD.read_dlpoly_table(text)
+    except RD.FormatError as e:
+        return dict(outcome='format-error', nontrivial=True, violations=[dict(sig='format-error', msg='unreadable DL_POLY TABLE: %s' % e, detail={'text': text[:1500]})])
+    viol = check_table(case, t)
+    for v in viol:
+        v['msg'] = 'cutoff : %s with dr : %s (not a whole multiple; %d rows): %s' % (case['cut'], case['dr'], case['nr'], v['msg'])
+    return dict(outcome='ok:derived' if not viol else 'violation', nontrivial=True, evals=2 * t['ngrid'], violations=viol)
+
+
+def run_hstep(case):
+    import atsim.potentials as ap
+    from atsim.potentials.pair_tabulation import DLPoly_PairTabulation
+    h, nr = case['hstep'], case['nr']
+
+    def f(r):
+        return 3.0 - 2.0 * r + 0.5 * r * r
+    fp = io.StringIO()
+    pots = [ap.Potential('A', 'B', f, h=h)]
+    if case['route'] == 'cls':
+        DLPoly_PairTabulation(pots, case['cutoff'], nr).write(fp)
+    else:
+        ap.writePotentials('DL_POLY', pots, case['cutoff'], nr, fp)
+    viol = []
+    t = RD.read_dlpoly_table(fp.getvalue())
+    delpot = case['cutoff'] / (nr - 4.0)
+    for k in range(1, nr + 1):
+        r = k * delpot
+        G, uG = t['blocks'][0]['forces'][k - 1]
+        want = -r * (-2.0 + r)
+        if abs(G - want) > uG + 1e-6 * abs(want) + r * 50 * M.EPS * 3.0 / h:
+            V(viol, 'force-numerical-step', 'Potential(.., h=%r), V = 3 - 2r + r^2/2, k=%d r=%r: force field %r, -r dV/dr = %r (a central difference over h is exact for a quadratic)' % (h, k, r, G, want))
+            break
+    return dict(outcome='ok:hstep' if not viol else 'violation', nontrivial=True, evals=nr, violations=viol)
+
+
 def run_case(case):
     if case.get('nan'):
         return run_nan(case)
+    if case.get('derived'):
+        return run_derived(case)
+    if case.get('hstep'):
+        return run_hstep(case)
     if case.get('reject'):
         return run_reject(case)
     text = PK.produce(case, 'DL_POLY', ini_target=case['spelling'])
